@@ -8,13 +8,33 @@ vars == <<C, A, bad, hist>>
 View == <<C, A, bad>>
 
 Keys == <<0, 32768, 512, 1, 256, 33280>>      \* mel 0:0, perc 0:0, mel 2:0, mel 0:1, mel 1:0, perc 2:0
+\* instruments written: flag byte x voice data (d = 0: all data fields zero; lib/gen_bank.py mk_ins is the same formula)
+MkIns(fl, d) ==
+  IF d = 0 THEN [i \in 1..InsLen |-> IF i = FFlags THEN fl ELSE 0]
+  ELSE <<d * 5 - 12, d - 2, 35 + d, fl, (d * 9) % 64, (d * 5) % 48>> \o [i \in 1..28 |-> (d * 11 + i * 7) % 128] \o <<100 + d, 50 + d>>
+\* flags x data x previous slot content: bank Keys[1] is written with a sounding instrument and with a blank-flagged
+\* instrument that carries voice data (in either order, over each other or into the untouched slot), Keys[2] with
+\* blank + pseudo-8op and data, Keys[3] with every flag bit set and no data
+SetOps == << [o |-> "setins", key |-> Keys[1], idx |-> 0, ins |-> MkIns(0, 1)],
+             [o |-> "setins", key |-> Keys[1], idx |-> 0, ins |-> MkIns(FlagBlank, 2)],
+             [o |-> "setins", key |-> Keys[2], idx |-> 0, ins |-> MkIns(FlagBlank + FlagPseudo8op, 3)],
+             [o |-> "setins", key |-> Keys[3], idx |-> 0, ins |-> MkIns(255, 0)] >>
 Ops == [i \in 1..6 |-> [o |-> "get", key |-> Keys[i], mode |-> "create"]] \o
        [i \in 1..6 |-> [o |-> "get", key |-> Keys[i], mode |-> "creatert"]] \o
        [i \in 1..6 |-> [o |-> "remove", key |-> Keys[i]]] \o
-       [i \in 1..3 |-> [o |-> "setins", key |-> Keys[i], idx |-> 0, tok |-> i]] \o
+       SubSeq(SetOps, 1, 3) \o
        << [o |-> "reserve", n |-> 5], [o |-> "reserve", n |-> 9], [o |-> "clear"],
           [o |-> "get", key |-> 0, mode |-> "find"],
-          [o |-> "setins", key |-> Keys[1], idx |-> 128, tok |-> 9] >>      \* first index past the end of a bank: rejected, nothing changes
+          [o |-> "setins", key |-> Keys[1], idx |-> 128, ins |-> MkIns(0, 9)] >> \o   \* first index past the end of a bank: rejected, nothing changes
+       SubSeq(SetOps, 4, 4)
+\* read-back clause of C16 on the model: after an accepted write the slot holds exactly the instrument written (every
+\* field, whatever its flags and whatever was there before) and every other instrument of every bank is what it was
+ReadBackOK(C0_, C1, op) ==
+  LET s == BucketFind(C0_, op.key) IN
+  /\ InsWellFormed(op.ins)
+  /\ BucketFind(C1, op.key) = s
+  /\ ValGet(C1.slots[s].val, op.idx) = op.ins
+  /\ \A t \in DOMAIN C0_.slots : \A j \in {0, 1, 127} : (t # s \/ j # op.idx) => ValGet(C1.slots[t].val, j) = ValGet(C0_.slots[t].val, j)
 
 Init == C = Reserve(C0, InitCap) /\ A = <<>> /\ bad = {} /\ hist = <<>>
 Next == \E i \in DOMAIN Ops :
@@ -30,6 +50,7 @@ Next == \E i \in DOMAIN Ops :
                    \cup (IF op.o = "get" /\ op.mode = "find" /\ ((res.r = 0) # AHas(A, op.key)) THEN {"find"} ELSE {})
                    \cup (IF op.o = "get" /\ op.mode = "create" /\ res.r # 0 THEN {"create"} ELSE {})
                    \cup (IF op.o = "setins" /\ ~InsIdxOk(op.idx) /\ (res.r # -1 \/ res.c # C \/ A1 # A) THEN {"insidx"} ELSE {})
+                   \cup (IF op.o = "setins" /\ InsIdxOk(op.idx) /\ ~(res.r = 0 /\ ReadBackOK(C, res.c, op)) THEN {"readback"} ELSE {})
 Spec == Init /\ [][Next]_vars
 NoBad == bad = {}
 DepthBound == TLCGet("level") < MaxDepth
